@@ -137,23 +137,34 @@ def _single_call_replay(payload, repo, tmp):
 
 
 def _history_replay(payload, repo, tmp):
-    """Fallback: re-execute the group's history up to the failing position under every state."""
+    """Fallback: re-execute the group's history up to the failing position under every state
+    (the states run in parallel)."""
     upto = int(payload.get("upto", payload.get("index", 0)))
     g = payload["group"]
     recs = {}
     want = payload["violation"]["class"]
+    procs = []
     for v in payload["variants"]:
         out = os.path.join(tmp, f"hist_{v}.json")
         cmd = [PY, "-m", "sim.c14worker", "--group", str(g), "--seed", str(payload["seed"]), "--budget", "100000", "--max-calls", str(upto + 1), "--out", out, "--repo", repo]
-        r = subprocess.run(cmd, env=variant_env(v), cwd=VERIF, capture_output=True, text=True, timeout=3000)
-        if r.returncode or not os.path.exists(out):
-            return None, f"history replay failed under variant {v}: {r.stdout[-400:]}{r.stderr[-400:]}"
+        procs.append((v, out, subprocess.Popen(cmd, env=variant_env(v), cwd=VERIF, stdout=subprocess.PIPE, stderr=subprocess.STDOUT, text=True)))
+    hit = None
+    for v, out, pr in procs:
+        try:
+            so, _ = pr.communicate(timeout=3000)
+        except subprocess.TimeoutExpired:
+            pr.kill()
+            return None, f"history replay timed out under variant {v}"
+        if pr.returncode or not os.path.exists(out):
+            return None, f"history replay failed under variant {v}: {so[-600:]}"
         with open(out) as f:
             d = json.load(f)
         for viol in d["violations"]:
-            if viol["class"] == want and viol["kernel"] == payload["kernel"]:
-                return True, f"history prefix (group {g}, {upto + 1} entries) under allocator state {v}: {want}: {viol['message']}"
+            if hit is None and viol["class"] == want and viol["kernel"] == payload["kernel"]:
+                hit = f"history prefix (group {g}, {upto + 1} entries) under allocator state {v}: {want}: {viol['message']}"
         recs[str(v)] = {r_["i"]: (r_.get("sha"), r_.get("exc")) for r_ in d["records"]}
+    if hit:
+        return True, hit
     idx = payload.get("index")
     keys = {recs[v].get(idx) for v in recs}
     if len(keys) > 1:
